@@ -35,6 +35,7 @@ import (
 	"time"
 
 	kafka "github.com/segmentio/kafka-go"
+	"github.com/segmentio/kafka-go/sasl/plain"
 	"github.com/segmentio/kafka-go/protocol"
 	"github.com/segmentio/kafka-go/protocol/addoffsetstotxn"
 	"github.com/segmentio/kafka-go/protocol/addpartitionstotxn"
@@ -130,6 +131,9 @@ type routeCase struct {
 	Topics     []topicSpec  `json:"topics"`
 	Coords     []coordSpec  `json:"coords"`
 	Steps      []step       `json:"steps"`
+	// SASL: the cluster demands SASL/PLAIN and the Transport is configured for it: SaslHandshake and SaslAuthenticate are
+	// requests like the others as far as versions go.
+	SASL bool `json:"sasl,omitempty"`
 	// BootstrapDown: no broker is reachable when the Transport is first used; the step "bootstrap_up" ends the outage.
 	BootstrapDown bool `json:"bootstrap_down,omitempty"`
 }
@@ -854,6 +858,10 @@ func execute(c routeCase) *result {
 	w.addr = kafka.TCP(addrs...)
 	ttl := time.Duration(c.TTLms) * time.Millisecond
 	w.tr = &kafka.Transport{Dial: nw.Dial, MetadataTTL: ttl, ClientID: "c12"}
+	if c.SASL {
+		cl.EnableSASL(&fakecluster.SASLConfig{Mechanisms: []string{"PLAIN"}, Users: map[string]string{"u": "p"}})
+		w.tr.SASL = plain.Mechanism{Username: "u", Password: "p"}
+	}
 	w.client = &kafka.Client{Addr: w.addr, Transport: w.tr}
 	if c.BootstrapDown {
 		for _, id := range cl.BrokerIDs() {
@@ -1012,7 +1020,7 @@ func run(tb ev.TB, c routeCase) *outcome {
 	// ---- version rule: every request is encoded at min(library max, broker max), inside the advertised range
 	perApiBroker := map[int16]map[int16]bool{} // api -> set of versions used (heterogeneity evidence)
 	for _, e := range j {
-		if e.ApiKey == 18 || e.ApiKey == 17 || e.ApiKey == 36 {
+		if e.ApiKey == 18 || e.ApiKey < 0 || ((e.ApiKey == 17 || e.ApiKey == 36) && !c.SASL) {
 			continue
 		}
 		tbl, ok := adv[e.ConnID]
